@@ -2,7 +2,7 @@
    Model: theories/Interp.v.  Proofs: proofs/RefsP.v (on top of proofs/IdsP.v, C01).      *)
 From Coq Require Import ZArith List Permutation.
 From SFV Require Import Base Interp.
-From SFV.P Require Import InterpP IdsP RefsP.
+From SFV.P Require Import InterpP IdsP RefsP ContP.
 Import ListNotations. Open Scope Z_scope. Open Scope string_scope.
 
 (* Fresh run of any recipe of the fragment, any number k of iterations that completes: every
@@ -36,6 +36,17 @@ Theorem C02_no_dangling_continued :
       (1 <= i <= last_id s T) \/ exists row', In row' (out s') /\ fst row' = T /\ orow_id row' = [i].
 Proof. exact no_dangling_continued. Qed.
 Print Assumptions C02_no_dangling_continued.
+
+(* Any chain of continuation runs of a fresh dataset: every reference written anywhere in the
+   history, to a visible table, is the (table, id) of a row written by the same run or by an
+   earlier run of the chain ("or was written by an earlier iteration or continuation run"). *)
+Theorem C02_no_dangling_history :
+  forall (r : recipe) (ks : list nat) (rowss : list (list orow)),
+    run_history r ks None = Ok rowss ->
+    forall row n T i, In row (concat rowss) -> In (n, ORef T i) (snd row) -> hidden T = false ->
+      resolves_in (concat rowss) T i.
+Proof. exact no_dangling_history. Qed.
+Print Assumptions C02_no_dangling_history.
 
 (* every id held by a row, a forward-reference slot or an already written reference has been
    issued by the table's counter — preserved by every task of the evaluator *)
